@@ -113,7 +113,7 @@ func CmdCheck(args []string) int {
 	loadSecs := time.Since(t0).Seconds()
 	work, _ := os.MkdirTemp("", "gvc-"+*prop+"-")
 	defer os.RemoveAll(work)
-	cfg := SolverCfg{WorkDir: work, BatchMs: 5000, SingleMs: 10000, KeepFiles: *keep}
+	cfg := SolverCfg{WorkDir: work, BatchMs: 5000, SingleMs: 30000, KeepFiles: *keep}
 	if *tier == "thorough" {
 		cfg.BatchMs, cfg.SingleMs, cfg.Confirm = 20000, 120000, true
 	}
@@ -202,6 +202,9 @@ func CmdCheck(args []string) int {
 				continue
 			}
 			nObl++
+			if os.Getenv("GVC_SLOW") != "" && o.Secs > 2 {
+				fmt.Fprintf(os.Stderr, "SLOW %6.2fs %s %s\n", o.Secs, o.Solver, o.Name)
+			}
 			switch o.Status {
 			case "proved":
 				nDis++
